@@ -13,6 +13,7 @@ def extract(ctx):
     """regenerate the facts; a fact the extractor could not establish is noted and makes this run look harder"""
     import re
     txt = _conc.extract(ctx, "C11", "C11.lean")
+    _conc.extract(ctx, "C13", "C13.lean")  # Props/C11 also uses the shared-object write facts of the C13 extractor
     unknown = re.findall(r"def (\w+)Known : Bool := false\ndef \w+Why : String := \"([^\"]*)\"", txt)
     if unknown:
         ctx.notes.append("facts NOT established by the extractor (no obligation depends on them in this run; the stress run is "
